@@ -10,8 +10,8 @@
    get the empty fingerprint, which is never stored while Insert returns true.
    Proved: the involution for power-of-two sizes, Remove/Lookup agreement, and the concrete
    murmur3 model's agreement is checked by correspondence. *)
-From GX.Model Require Import Base Murmur Cuckoo.
-From GX.Proofs Require Import ListLemmas CuckooProofs CuckooInv CuckooLive.
+From GX.Model Require Import Base Murmur Cuckoo Redis RedisCMS RedisCuckoo.
+From GX.Proofs Require Import ListLemmas CuckooProofs CuckooInv CuckooLive RedisCuckooInv RedisCuckooLive.
 From Coq Require Import ZArith Permutation.
 
 (* mechanism: alternate bucket computable from (bucket, fingerprint hash) is an involution for
@@ -78,6 +78,32 @@ Proof.
   split; [apply usage_okb_sound; vm_compute; reflexivity|vm_compute; reflexivity].
 Qed.
 
+(* ---------- Redis-backed variant, on the Redis model (bucket lists, counters, metadata hash) ----------
+   Same regime: 2^jj buckets, non-empty fingerprints, non-destructive inserts, only live elements
+   removed, draws in Float64's range. RLI s L: the store satisfies the accounting invariant of C13
+   and the classes of its stored entries are those of the live multiset L. *)
+Section Redis.
+Variable key meta : bytes.
+Variable jj bsize fpl retries : N.
+Variable h64 : bytes -> N.
+Hypothesis meta_not_bucket : forall i, meta <> bucket_key key i.
+Hypothesis meta_not_len : forall i, meta <> len_key (bucket_key key i).
+Hypothesis bsize_pos : 1 <= bsize.
+Hypothesis bsize_small : bsize < 2 ^ 62.
+
+Theorem C02_redis_live_elements_found : forall ops s L,
+  RLI key meta jj bsize fpl retries h64 s L -> rusage_ok key meta jj bsize fpl retries h64 s L ops ->
+  forall x, In x (snd (rlrun key meta jj bsize fpl retries h64 s L ops)) ->
+    rck_lookup h64 (fst (rlrun key meta jj bsize fpl retries h64 s L ops)) (hdl key meta (2 ^ jj) bsize fpl retries) x = Ok true.
+Proof. exact (redis_live_elements_found key meta jj bsize fpl retries h64 meta_not_bucket meta_not_len bsize_pos bsize_small). Qed.
+
+(* a new filter whose keys are fresh satisfies RLI with no live elements *)
+Theorem C02_redis_new : forall s, meta <> key ->
+  (forall i, i < 2 ^ jj -> sget s (bucket_key key i) = None /\ sget s (len_key (bucket_key key i)) = None) ->
+  RLI key meta jj bsize fpl retries h64 (snd (rck_new s (2 ^ jj) bsize fpl retries key meta)) [].
+Proof. exact (redis_new_RLI key meta jj bsize fpl retries h64 meta_not_bucket meta_not_len bsize_pos bsize_small). Qed.
+End Redis.
+
 (* witness histories on the concrete murmur3 model *)
 Inductive wop := WIns (x : bytes) (coin : bool) (draws : list N) | WRem (x : bytes).
 Fixpoint wrun (f : cuckoo) (ops : list wop) : option cuckoo :=
@@ -123,3 +149,5 @@ Print Assumptions C02_refuted_empty_fingerprint.
 Print Assumptions C02_insert_stores_and_only_moves.
 Print Assumptions C02_live_elements_found_pow2.
 Print Assumptions C02_live_elements_found_inductive.
+Print Assumptions C02_redis_live_elements_found.
+Print Assumptions C02_redis_new.
